@@ -193,6 +193,12 @@ struct Scen {
 };
 static std::atomic<Scen*> g_cur{nullptr};
 
+// Waiting between scenarios: spin, yield, short sleeps, and after ~1 s of waiting 50 ms sleeps, so that a thread that waits for a
+// wedged scenario counts as asleep for the watchdog (a poller burning CPU would keep the spin-stall verdict from being reached).
+template <class P> static inline void polite_wait(P done) {
+    for (unsigned spins = 0; !done(); ) { ++spins; if (spins < 3000) _mm_pause(); else if (spins < 3100) sched_yield(); else if (spins < 7000) sleep_us(25); else if (spins < 8000) sleep_us(1000); else sleep_us(50000); }
+}
+
 static inline void delay(int d) {
     if (d <= 0) return;
     if (d < 100000) { spin_iters((unsigned)d); return; }
@@ -603,7 +609,7 @@ static void check_round(Scen& s, std::map<int, int>& present, const Final& fin, 
     for (auto& e : present) { ClsInfo& ci = cls[e.second / g]; ci.pre_count++; ci.pre_uid = e.first; }
     for (const Rec* r : all) if (is_insert(r->kind)) {
         UidInfo& u = U[r->uid]; u.key = r->key; u.cls = r->cls; u.thread = r->thread; u.attempted = true; u.call = r->call; u.ret = r->ret;
-        u.ok = r->unknown ? in_final[r->uid] != 0 : r->ok;
+        u.ok = r->unknown ? (multi || in_final[r->uid] != 0) : r->ok;     // insert(first,last): every element enters a multi container; unique: judged by the outcome
         cls[r->cls].ins.push_back(r->uid);
     }
     // ---- inserts
@@ -775,7 +781,8 @@ int main(int argc, char** argv) {
     Rng top(mix(R.seed, 0xC12));
     tbb::global_control gc(tbb::global_control::max_allowed_parallelism, 16);
 
-    watchdog_start(WatchdogCfg{}, [&](const HangInfo& hi) {
+    WatchdogCfg wcfg; wcfg.hard_limit_s = 400;       // on a loaded box a looping thread needs a while to burn the 10 s of CPU a spin-stall verdict asks for
+    watchdog_start(wcfg, [&](const HangInfo& hi) {
         Scen* s = g_cur.load();
         std::string d = "no progress for " + std::to_string(hi.stalled_for) + "s; threads: " + hi.threads + "\n" + rings_dump();
         // no container operation ever waits for another harness thread: every stall inside an operation is the container's
@@ -792,7 +799,7 @@ int main(int argc, char** argv) {
     for (int t = 0; t < 4; t++) pool.emplace_back([&, t] {
         uint64_t seen = 0;
         for (;;) {
-            for (int spins = 0; gen.load(std::memory_order_acquire) == seen; ) { if (++spins < 3000) _mm_pause(); else if (spins < 3100) sched_yield(); else sleep_us(25); }
+            polite_wait([&] { return gen.load(std::memory_order_acquire) != seen; });
             seen++;
             if (quit.load()) return;
             Scen* s = cur.load();
@@ -833,7 +840,7 @@ int main(int argc, char** argv) {
             s.start.reset(new Barrier(s.nthreads));
             done_cnt.store(0);
             gen.fetch_add(1, std::memory_order_release);
-            for (int spins = 0; done_cnt.load(std::memory_order_acquire) < 4; ) { if (++spins < 2000) _mm_pause(); else if (spins < 2100) sched_yield(); else sleep_us(20); }
+            polite_wait([&] { return done_cnt.load(std::memory_order_acquire) >= 4; });
             perturb().clear();
             buckets1 = vt.buckets(s);
             long d162 = (long)(hook_count(162) - h162), dcas = (long)(hook_count(161) - h161 + hook_count(166) - h166);
